@@ -112,7 +112,9 @@ claim('C02', 'other',
       'operands, implicit lineto after moveto, S/T reflection and its fallback, closepath line only when the pen is elsewhere, commands '
       'after Z, zero-radius arcs. This is exhaustive over the parser\'s finite control state (command, last command, abs/rel). Lexer: '
       'L(FLOAT_RE) equals the SVG number language, command letters cannot occur inside numbers, arc operands are tokenised with '
-      'single-character flags for both A and a. Not decided: ungrammatical input, tokenisation priority, float().',
+      'single-character flags for both A and a. The public entry points parse_path / Path(s, pos) hand the string unchanged and the start '
+      'position to that parser and return a fresh object per call (memoising decorators are modelled). Not decided: ungrammatical input, '
+      'tokenisation priority, float().',
       TRUST + ' The SVG semantics oracle is transcribed by hand (checks/c02.py:svg_semantics).', 'DESIGN.md section 3 C02')
 
 claim('C05', 'other',
@@ -170,9 +172,10 @@ claim('C11', 'other',
       'satisfies the intersection equations identically and both parameters are range-tested; in the Arc-Bezier branch u1transform maps '
       'the arc to the unit circle and is affine, the polynomial handed to the root finder is |u1transform(B(t))|^2 - 1, each returned t1 is '
       'the phase2t image of its own t2 and both are range-tested; Path.intersect attaches each parameter to its own path/segment and maps '
-      'through t2T; in the subdivision solver bezier_intersections (two levels of the work-list interpreted with symbolic boxes) every examined '
-      'sub-curve is the dyadic piece of its own input curve, each pair carries the mid parameters of its pieces, and a crossing is reported '
-      'only on paths that know BOTH boxes to be below tol_deC. Not decided: floating-point accuracy of subdivision and of the arc solvers '
+      'through t2T; in the subdivision solver bezier_intersections (up to three levels of the work-list interpreted on concrete box scenarios, '
+      'symbolic tol_deC, Python live list iteration) every examined sub-curve is the dyadic piece of its own input curve, each reported pair '
+      'carries the mid parameters of an overlapping cell, and only on paths that know BOTH boxes to be below tol_deC; isclose() tests between '
+      'positions in point_to_t are absolute (rtol=0). Not decided: floating-point accuracy of subdivision and of the arc solvers '
       '(1e-5 / 1e-3).', TRUST, 'DESIGN.md section 3 C11')
 
 claim('C12', 'other',
@@ -182,7 +185,8 @@ claim('C12', 'other',
       'Thin by nature: only necessary conditions, each of which has produced a real finding or catches a seeded break. Decides: phase2t '
       'shifts the phase into [limit, limit+360) with limit = the lower end of the angular interval for both signs of delta (F09), by '
       'floor(limit/360)*360 (+360 exactly when below the limit), t == (degs-theta)/delta; Path.intersect drops a crossing only when an earlier '
-      'one is known to lie within the absolute tol; index domains of the de-duplication steps in polyroots (F10) and Path.intersect; closed filters '
+      'one is known to lie within the absolute tol; in bezier_intersections scenarios, overlapping small cells that share no piece are reported once '
+      'each and cells that share a piece once in all (the four-cell corner scenario is known finding F24: a crossing reported twice); index domains of the de-duplication steps in polyroots (F10) and Path.intersect; closed filters '
       '[0,1] / [0,line_length] and single visit per root in the line solver; completeness of the cubic extrema used to prune the '
       'subdivision. NOT decided: completeness of recursive subdivision / numeric root finding - the heart of C12.',
       TRUST, 'DESIGN.md section 3 C12')
@@ -222,8 +226,9 @@ claim('C17', 'other',
       '(discarded results, dict/Element protocol, tag registries); regex->DFA inclusion',
       'Decides: all six transform kinds with their optional operands give the SVG 1.1 section 7.6 matrix (9 forms, blank and comma separated); lists '
       'compose left to right under blank/comma/newline separators; in Document.flattened_paths and SaxDocument.sax_parse the matrix applied '
-      'to each element of a 3-level model tree is (outermost ancestor ... own transform) in that order, and the transformed path is what is '
-      'returned; rect (plain, rounded, rx only), circle, ellipse, polyline, polygon and line convert to d-strings that the interpreted '
+      'to each element of a model tree (three levels of groups; siblings with and without an own transform in both orders) is (outermost '
+      'ancestor ... own transform) in that order, and the transformed path is what is returned; flattened_paths_from_group returns exactly the '
+      'leaves below the requested group (all levels when recursive) in the root frame; rect (plain, rounded, rx only), circle, ellipse, polyline, polygon and line convert to d-strings that the interpreted '
       'parser turns into exactly the section 9 geometry for all attribute values; converters touch their element only through .get(); no result of a '
       'pure curve function is discarded; the three readers register the same seven tags with the same converters; every CSS number is in '
       'the point-list lexer\'s language. Not decided: XML parsing itself, filters, numerics of transform() on arcs.',
